@@ -267,7 +267,8 @@ def cl2(ctx):
              "Memory fields updated: %s (only header_ptr and data_offset)" % paths, b.loc())
 
 
-@rule("C17-Cl3", "C17", 2, "Header::new(size, min): allocated = size, sentinel = (SENTINEL, SENTINEL) i.e. empty list, min_segment_size = min, discarded = 0")
+@rule("C17-Cl3", "C17", 4, "Header::new(size, min): allocated = size, sentinel = (SENTINEL, SENTINEL) i.e. empty list, min_segment_size = min, discarded = 0; "
+      "load_min_segment_size / load_allocated read those fields", also=("C05", "C11"))
 def cl3(ctx):
     for fl in FLAVOURS:
         b = ctx.facts.one(r"^<%s::sealed::Header as sealed::Header>::new$" % fl)
@@ -286,6 +287,19 @@ def cl3(ctx):
             det = {"allocated": show(al), "min": show(ms), "discarded": show(di), "sentinel": show(se)}
             ok = al == size and ms == mn and di == const(0) and tag(se) == "pack" and all(tag(x) == "named" and x[1].startswith("SENTINEL_SEGMENT_NODE") and x[2] == 0xFFFFFFFF for x in se[1:])
         yield Ob(key_of("C17-Cl3", b.path, "fields"), ok, "Header::new aggregate: %s" % det, b.loc())
+        # the accessors Memory uses to carry state over (clear keeps the minimum segment size, reopen validates the cursor) read the field they are named after
+        for acc, fld in (("load_min_segment_size", "min_segment_size"), ("load_allocated", "allocated")):
+            ab = ctx.facts.find(r"^<%s::sealed::Header as sealed::Header>::%s$" % (fl, acc))
+            if not ab:
+                continue      # (load_allocated exists with memmap only)
+            ev2, res2 = ctx.eval(ab[0])
+            r_ = res2.ret
+            if tag(r_) == "load":
+                got = r_[2][2][-1] if tag(r_[2]) == "heap" and r_[2][2] else None
+            else:
+                rc = canon(r_)
+                got = rc[2] if tag(rc) == "field" else (rc[2][-1] if tag(rc) == "hload" and rc[2] else None)
+            yield Ob(key_of("C17-Cl3", ab[0].path, "reads-its-field"), got == fld, "%s returns the header's `%s` (reads `%s`)" % (acc, fld, got), ab[0].loc())
 
 
 @rule("C17-W5", "C17", 2, "rewind: a narrowing cast of the (64-bit) target position to u32 is dominated by guards bounding it inside [0, cap] - a truncating cast would "
